@@ -156,11 +156,15 @@ def main():
         print(str(e), file=sys.stderr)
         sys.exit(-1)
 
-    except (BrokenPipeError, IOError):
+    except BrokenPipeError:
         # avoid errors when stdout is closed before the end of the
         # program (i.e. piping into a command line which does
         # not work.)
         pass
+
+    except IOError as e:
+        error_msg("I/O ERROR: " + str(e))
+        sys.exit(-1)
 
     # avoid signaling BrokenPipeError as whatnot
     sys.stderr.close()
